@@ -99,7 +99,7 @@ func (c *checker) coins(name, args string, get func() (sdk.Coins, error), pred f
 		}
 		want := c.l.sum(pred)
 		// only the scenario's denoms are compared (the module account holds nothing else anyway)
-		for _, dn := range Denoms {
+		for _, dn := range denomsOf(c.l) {
 			if !got.AmountOf(dn).Equal(want.AmountOf(dn)) {
 				c.fail("query.coins:"+name, "", short(fmt.Sprintf("%s(%s) at t=%s returned %s, the ledger's matching locks sum to %s", name, args, c.l.Now.Format(time.RFC3339Nano), got, want)))
 				return
@@ -147,7 +147,14 @@ func (w *World) Check(ctx sdk.Context, l *Ledger, fail func(a, s, d string)) {
 		o := o
 		bal := w.App.BankKeeper.GetAllBalances(q, core.Acc(o))
 		own := l.sum(func(x Lock) bool { return x.Owner == o })
-		for _, dn := range Denoms {
+		for _, dn := range denomsOf(l) {
+			if dn == DenomCL {
+				// minted into the lock, burnt at pay-out: never spendable by anyone
+				if !bal.AmountOf(dn).IsZero() {
+					fail("funds.owner-conservation", "", fmt.Sprintf("%s holds %s spendable %s", o, bal.AmountOf(dn), dn))
+				}
+				continue
+			}
 			if !bal.AmountOf(dn).Add(own.AmountOf(dn)).Equal(sdkmath.NewInt(InitialFunds)) {
 				fail("funds.owner-conservation", "", fmt.Sprintf("%s: spendable %s + locked %s != initial %d of %s", o, bal.AmountOf(dn), own.AmountOf(dn), InitialFunds, dn))
 			}
@@ -190,7 +197,7 @@ func (w *World) Check(ctx sdk.Context, l *Ledger, fail func(a, s, d string)) {
 
 	// ---- unconditioned listings ----------------------------------------------------------------
 	c.locks("GetPeriodLocks", "", func() ([]lockuptypes.PeriodLock, error) { return k.GetPeriodLocks(q) }, all)
-	for _, dn := range Denoms {
+	for _, dn := range denomsOf(l) {
 		dn := dn
 		c.locks("GetLocksDenom", dn, func() ([]lockuptypes.PeriodLock, error) { return k.GetLocksDenom(q, dn), nil },
 			func(x Lock) bool { return x.Denom == dn })
@@ -227,7 +234,7 @@ func (w *World) Check(ctx sdk.Context, l *Ledger, fail func(a, s, d string)) {
 	}
 
 	// accumulation totals at the alphabet's own durations and at 0, on the live branch
-	for _, dn := range Denoms {
+	for _, dn := range denomsOf(l) {
 		for _, d := range append([]time.Duration{0}, latticeDurs(l)...) {
 			dn, d := dn, d
 			c.coins("LockedDenom", dn+","+d.String()+",live", func() (sdk.Coins, error) {
@@ -278,7 +285,7 @@ func (w *World) Check(ctx sdk.Context, l *Ledger, fail func(a, s, d string)) {
 	for _, d := range ds {
 		d := d
 		ds := d.String()
-		for _, dn := range Denoms {
+		for _, dn := range denomsOf(l) {
 			dn := dn
 			atLeast := func(x Lock) bool { return x.Denom == dn && x.Dur >= d }
 			// "amount locked for at least duration d" = sum over live locks (statement); the accumulation
@@ -326,7 +333,7 @@ func (w *World) Check(ctx sdk.Context, l *Ledger, fail func(a, s, d string)) {
 			if o == "C" {
 				continue
 			}
-			for _, dn := range Denoms {
+			for _, dn := range denomsOf(l) {
 				dn := dn
 				c.locks("AccountLockedLongerDurationDenom", o+","+dn+","+ds, func() ([]lockuptypes.PeriodLock, error) {
 					r, err := w.Q.AccountLockedLongerDurationDenom(q, &lockuptypes.AccountLockedLongerDurationDenomRequest{Owner: addr(o), Duration: d, Denom: dn})
@@ -399,7 +406,7 @@ func (w *World) Check(ctx sdk.Context, l *Ledger, fail func(a, s, d string)) {
 			}
 			return !t.Before(now) && x.Dur < t.Sub(now)
 		}
-		for _, dn := range Denoms {
+		for _, dn := range denomsOf(l) {
 			dn := dn
 			c.locks("GetLocksPastTimeDenom", dn+","+tstr, func() ([]lockuptypes.PeriodLock, error) {
 				return k.GetLocksPastTimeDenom(q, dn, t), nil
@@ -438,7 +445,7 @@ func (w *World) Check(ctx sdk.Context, l *Ledger, fail func(a, s, d string)) {
 			if o == "C" {
 				continue
 			}
-			for _, dn := range Denoms {
+			for _, dn := range denomsOf(l) {
 				dn := dn
 				c.locks("AccountLockedPastTimeDenom", o+","+dn+","+tstr, func() ([]lockuptypes.PeriodLock, error) {
 					r, err := w.Q.AccountLockedPastTimeDenom(q, &lockuptypes.AccountLockedPastTimeDenomRequest{Owner: addr(o), Timestamp: t, Denom: dn})
